@@ -641,6 +641,11 @@ def check(pid, argv=None):
             if key.startswith("copy:"):
                 run.report("hybrid-" + key, desc, rp)
         run.finish()
+    if run.replay and json.load(open(run.replay))["replay"].get("engine") == "handles":
+        from . import handlemc
+        handlemc.replay_one(run, json.load(open(run.replay))["replay"])
+        run.cov["traces_validated_against_impl"] = 1
+        run.finish()
     if run.replay:
         g = json.load(open(run.replay))["replay"]["gen"]
         if g.get("kind") == "model":
@@ -659,6 +664,11 @@ def check(pid, argv=None):
             t1 = time.time()
             observe.observe(run)
             run.notes["t_observe_repo_tests"] = round(time.time() - t1, 1)
+        if pid == "C06":
+            from . import handlemc
+            t1 = time.time()
+            handlemc.model_level(run)
+            run.notes["t_handle_model"] = round(time.time() - t1, 1)
         if pid == "C09":
             hybrid_copies(run)
         n = COUNTS[run.tier]
